@@ -1,11 +1,16 @@
 #!/bin/sh
-# usage: tools/wave_eval.sh "C01:C01 C18" "C02:C02 C01" ...   (property:checks to run)
+# usage: [IN_WORKTREE=1] tools/wave_eval.sh "C01:C01 C18" "C02:C02 C01" ...   (property:checks to run)
+# IN_WORKTREE=1 evaluates each change inside its own scratch worktree /tmp/wt_<P> instead of /repo.
 for spec in "$@"; do
   P=${spec%%:*}; CH=${spec#*:}
   for v in A B; do
     d=/tmp/wt_$P/_out
     [ -f $d/patch$v.diff ] || { echo "== $P$v: no patch"; continue; }
     echo "== $P$v"
-    /verif/tools/seeded_eval.sh $d/patch$v.diff $d/demo$v.py $CH 2>&1
+    if [ -n "$IN_WORKTREE" ]; then
+      EVAL_REPO=/tmp/wt_$P /verif/tools/seeded_eval.sh $d/patch$v.diff $d/demo$v.py $CH 2>&1
+    else
+      /verif/tools/seeded_eval.sh $d/patch$v.diff $d/demo$v.py $CH 2>&1
+    fi
   done
 done
